@@ -113,7 +113,29 @@ func vfProbes(t *rapid.T, entries []vfEntry) []string {
 		default:
 			continue
 		}
-		out = append(out, vfIntToIP(n, size).String())
+		txt := vfIntToIP(n, size).String()
+		// legal non-canonical spellings of the same address (what proxies put into
+		// X-Forwarded-For / X-Real-IP): upper-case / fully expanded IPv6, IPv4-mapped IPv6
+		switch rapid.IntRange(0, 5).Draw(t, fmt.Sprintf("spell%d", i)) {
+		case 0:
+			if size == 16 {
+				txt = strings.ToUpper(txt)
+			} else {
+				txt = "::ffff:" + txt
+			}
+		case 1:
+			if size == 16 {
+				ip := vfIntToIP(n, size)
+				parts := make([]string, 8)
+				for j := 0; j < 8; j++ {
+					parts[j] = fmt.Sprintf("%x", int(ip[2*j])<<8|int(ip[2*j+1]))
+				}
+				txt = strings.Join(parts, ":")
+			} else {
+				txt = "::FFFF:" + txt
+			}
+		}
+		out = append(out, txt)
 	}
 	out = append(out, rapid.SampledFrom(vfV4Bases).Draw(t, "probe.v4"))
 	out = append(out, rapid.SampledFrom(vfV6Bases).Draw(t, "probe.v6"))
@@ -225,6 +247,9 @@ func TestVerifC05Table(t *testing.T) {
 			if len(acc) > 1 {
 				vf.Class("ambiguous-mapped-spelling")
 			}
+			if ip != nil && ip.String() != probe {
+				vf.Class("probe-noncanonical-spelling")
+			}
 			if strings.Contains(probe, ":") {
 				vf.Class("probe-v6")
 			} else {
@@ -239,7 +264,7 @@ func TestVerifC05Table(t *testing.T) {
 			}
 		}
 		// robustness class: unparseable client strings must not panic (decision not asserted)
-		junk := rapid.SampledFrom([]string{"", "not-an-ip", "10.0.0", "10.0.0.1:80", "[::1]", "1.2.3.4.5", "::ffff:10.0.0.1"}).Draw(rt, "junk")
+		junk := rapid.SampledFrom([]string{"", "not-an-ip", "10.0.0", "10.0.0.1:80", "[::1]", "1.2.3.4.5"}).Draw(rt, "junk")
 		if p, txt, site := vfRecover(func() { f.Allow(junk) }); p {
 			vf.Violation(rt, "allow-panics-junk site="+site, "Allow(%q) panicked: %s", junk, txt)
 		}
